@@ -140,7 +140,7 @@ class DGen(F.Gen):
         """Locals s1/s2 carry no value on entry: each pattern defines them before (dynamically) reading them."""
         rng = self.rng
         free = [v for v in self.loopvars if v not in self.active_loops]
-        p = rng.choice(['carried', 'carried', 'first-in-branch', 'call-def'])
+        p = rng.choice(['carried', 'carried', 'first-in-branch', 'call-def', 'cond-overwrite', 'cond-overwrite'])
         if p == 'carried' and free and 's1' not in self.busy:
             v = free[0]
             self.busy.add('s1')
@@ -156,6 +156,25 @@ class DGen(F.Gen):
             c = self.cond(self.int_scalars_noarr)
             return [if_(c, [assign(V('s2'), self.int_expr(1, self.int_scalars)), assign(V('k'), self.bounded(op('sum', V('k'), V('s2'))))],
                         [assign(V('s2'), N(3))] if rng.random() < 0.5 else [])]
+        if p == 'cond-overwrite':
+            # a scalar is written, then tested by an IF / IF-ELSE IF / SELECT CASE whose every branch overwrites it
+            # without reading it: the only read after the write is the condition itself
+            w = [v for v in ('t1', 't2', 'a1', 'a2') if v not in self.active_loops]
+            v = rng.choice(w)
+            others = [x for x in self.int_scalars_noarr if x != v]
+            val = lambda: rng.choice([N(rng.randint(0, 9)), V(rng.choice(others)), op('sum', V(rng.choice(others)), N(1))])
+            first = assign(V(v), self.bounded(self.int_expr(1, others)))
+            shape = rng.choice(['if-else', 'if-else', 'if-elseif-else', 'select'])
+            if shape == 'select':
+                first = assign(V(v), call('mod', call('abs', self.int_expr(1, others)), N(4)))
+                st = select_(V(v), [(0, 0, [assign(V(v), val())]), (1, 2, [assign(V(v), val())])], [assign(V(v), val())])
+            elif shape == 'if-else':
+                st = if_(cmp_(rng.choice(['>', '<', '==']), V(v), N(rng.randint(0, 6))), [assign(V(v), val())], [assign(V(v), val())])
+            else:
+                st = {'s': 'if', 'conds': [cmp_('>', V(v), N(rng.randint(3, 8))), cmp_('>', V(v), N(rng.randint(0, 2)))],
+                      'bodies': [[assign(V(v), val())], [assign(V(v), val())]], 'els': [assign(V(v), val())]}
+            mid = [assign(V('k'), self.bounded(op('sum', V('k'), N(1))))] if rng.random() < 0.4 else []
+            return [first] + mid + [st, assign(V('k'), self.bounded(op('sum', V('k'), V(v))))]
         if p == 'call-def' and self.helpers:
             # s2 receives its first value through a dummy (intent(out) or none), then is read
             h = rng.choice(['h5', 'h8'])
@@ -336,6 +355,12 @@ def directed(rng):
         'section-assign': [assign(el('ia', F.rng_(N(1), N(4))), add(el('ia', F.rng_(N(0), N(3))), N(1))), assign(V('k'), el('ia', N(0)))],
         'raw-across-zero-trip-loop': [assign(V('t1'), N(3)), do_('i', N(1), V('n'), [assign(V('t1'), V('i'))]), assign(V('k'), V('t1'))],
         'raw-across-select': [assign(V('t1'), N(3)), select_(call('mod', call('abs', V('n')), N(3)), [(0, 0, [assign(V('t1'), N(5))])]), assign(V('k'), V('t1'))],
+        'raw-condition-if-else-overwrite': [assign(V('t1'), add(V('n'), N(1))), if_(cmp_('>', V('t1'), N(2)), [assign(V('t1'), N(10))], [assign(V('t1'), N(0))]), assign(V('k'), V('t1'))],
+        'raw-condition-if-elseif-else-overwrite': [assign(V('t1'), add(V('n'), V('m'))), assign(V('k'), N(1)),
+                                                   {'s': 'if', 'conds': [cmp_('>', V('t1'), N(4)), cmp_('>', V('t1'), N(1))], 'bodies': [[assign(V('t1'), N(1))], [assign(V('t1'), N(2))]], 'els': [assign(V('t1'), N(0))]},
+                                                   assign(V('k'), add(V('k'), V('t1')))],
+        'raw-condition-select-overwrite': [assign(V('t1'), call('mod', call('abs', V('n')), N(3))), select_(V('t1'), [(0, 0, [assign(V('t1'), N(5))]), (1, 1, [assign(V('t1'), N(6))])], [assign(V('t1'), N(7))]), assign(V('k'), V('t1'))],
+        'raw-condition-in-loop-body': [do_('i', N(1), N(3), [assign(V('t1'), el('ia', V('i'))), if_(cmp_('>', V('t1'), N(1)), [assign(V('t1'), N(10))], [assign(V('t1'), N(0))]), assign(el('ic', V('i')), V('t1'))])],
         'raw-across-conditional-call': [assign(V('t1'), N(3)), callst('h6', V('t1'), V('n')), assign(V('k'), V('t1'))],
     }
     out = []
@@ -746,6 +771,10 @@ def classify0(ix, sets, miss):
                     if inner_if or any(c in ('select', 'where') for c in chain):
                         continue
                     return f"raw:candidate-cleared-by:{'/'.join(chain + [ix.nokill(s_['id'], var, sets)])}:{role}"
+        if vis == leaf and lk in ('if', 'elseif', 'select', 'while', 'do'):
+            # the read is in the construct's own header (condition / selector / bounds), the variable is in the
+            # construct's uses and no recorded definition lies between p and the construct
+            return f'raw:condition-read-not-recorded:{lk}:{role}'
         return f'raw:unexplained:{ix.kind(node)}:{lk}:{role}'
     return f'{cl}:unknown'
 
